@@ -31,6 +31,10 @@ func runAnalyzer(pass *analysis.Pass) (interface{}, error) {
 		verifPass("PassReturnInitErr", pass)
 		return nil, fmt.Errorf("init error: %w", err)
 	}
+	if critic == nil {
+		// Init error was already reported for another package.
+		return nil, nil
+	}
 	verifPass("PassPrepared", pass)
 
 	ctx := linter.NewContext(pass.Fset, pass.TypesSizes)
